@@ -147,9 +147,14 @@ package stateless
 // the status the facts dictate for a CID of the pinset that has no operation in flight
 //@ spec func factStatus(p api.Pin, self peer.ID, held bool) api.TrackerStatus = ite(p.Type == api.MetaType, api.TrackerStatusSharded, ite(remoteFor(p, self), api.TrackerStatusRemote, ite(held, api.TrackerStatusPinned, api.TrackerStatusUnexpectedlyUnpinned)))
 
-// assumed (not verified): the answer of the IPFS connector, as a map with one fresh "pinned" entry per held CID
+// assumed (not verified): the answer of the IPFS connector, as a map with one fresh "pinned" entry per held CID.
+// Checked: WHAT the connector is asked - the listing is the daemon's RECURSIVE pins only (an entry of any other kind,
+// direct or indirect, is not "the expected pin" of a recursive pinset item and must not count as held)
 //@ func (spt *Tracker) ipfsStatusAll
-//@   opts trusted
+//@   property C05 C06
+//@   opts assume_post
+//@   at_call rpc.Client.CallContext assert [asks-for-the-recursive-pins] svcName == "IPFSConnector" && svcMethod == "PinLs" && args == any("recursive")
+//@   loop 1 (range ipsMap)
 //@   ensures err != nil ==> res == nil
 //@   ensures err == nil ==> !isnil(res) && forall c cid.Cid :: (haskey(res, c) <==> ipfsHeld[c]) && (haskey(res, c) ==> res[c] != nil && fresh(res[c]) && res[c].Status == api.TrackerStatusPinned && res[c].Cid == c)
 //@   modifies nothing
